@@ -47,6 +47,8 @@ type fakeZk struct {
 	unlocks   int
 	lockOK    []time.Time // successful acquisitions
 	expired   []time.Time // broadcasts
+	lockAt    []time.Time // every Lock() call
+	connAt    []time.Time // when the reconnection (StateConnected) of cycle i was delivered
 	events    chan zk.Event
 	block     chan struct{}
 	app       *protocol.ApplicationContext
@@ -72,6 +74,7 @@ func (l *fakeZkLock) Lock() error {
 	f := (*fakeZk)(l)
 	f.mu.Lock()
 	f.lockCalls++
+	f.lockAt = append(f.lockAt, time.Now())
 	if f.cycle >= len(f.sc.fails) {
 		f.mu.Unlock()
 		<-f.block // script exhausted: the lock is never granted again
@@ -119,8 +122,15 @@ func (l *fakeZkLock) Lock() error {
 			return
 		}
 		f.events <- zk.Event{Type: zk.EventSession, State: zk.StateExpired}
+		// what the real client reports while it builds the new session: none of these means "connected"
+		f.events <- zk.Event{Type: zk.EventSession, State: zk.StateDisconnected}
+		f.events <- zk.Event{Type: zk.EventSession, State: zk.StateConnecting}
 		time.Sleep(time.Duration(f.sc.down[cycle]) * time.Millisecond)
+		f.mu.Lock()
+		f.connAt = append(f.connAt, time.Now())
+		f.mu.Unlock()
 		f.events <- zk.Event{Type: zk.EventSession, State: zk.StateConnected}
+		f.events <- zk.Event{Type: zk.EventSession, State: zk.StateHasSession}
 	}()
 	return nil
 }
@@ -250,7 +260,26 @@ func runZkScenario(line string) string {
 	if gap > 0 {
 		gs = "stuck"
 	}
-	return fmt.Sprintf("locks=%d unlocks=%d gap=%s live=%d pace=%s", locks, unlocks, gs, live, pace)
+	// Lock() calls made while the session was known to be gone: after an expiry and well before the reconnection
+	prelock := 0
+	fake.mu.Lock()
+	for i, c := range fake.connAt {
+		// connAt[i] belongs to the i-th expiry that went through the event path (flaps and in-Lock expiries add none)
+		var exp time.Time
+		for _, e := range fake.expired {
+			if !e.After(c) {
+				exp = e
+			}
+		}
+		_ = i
+		for _, t := range fake.lockAt {
+			if t.After(exp) && t.Before(c.Add(-30*time.Millisecond)) {
+				prelock++
+			}
+		}
+	}
+	fake.mu.Unlock()
+	return fmt.Sprintf("locks=%d unlocks=%d gap=%s live=%d pace=%s prelock=%d", locks, unlocks, gs, live, pace, prelock)
 }
 
 func runZkLoop(r *runner) {
